@@ -635,13 +635,15 @@ def _canary():
         c = flow_cfg(rng, marks=[ei])
         c.update(ei=ei, stages=[[rng.choice([1.0, 10.0, 50.0, 100.0]), round(ei * rng.choice([0.5, 1.0, 3.0]), 6)]
                                 for _ in range(rng.randint(1, 3))], nb=rng.randint(1, 3), svc=svc_times(rng), real=rng.random() < 0.5,
-                 at=rng.randrange(0, 10**9))
+                 at=rng.randrange(0, 10**9), evaluator=rng.choice([None, "error", "latency"]))
         return c
 
     def build(z, c):
         lb, factory = deploy_base(z, c)
         stages = [CanaryStage(traffic_percentage=check_num(p, 0, 100), evaluation_period=check_num(e, 1e-6)) for p, e in c["stages"]]
-        d = z.add(CanaryDeployer("canary", load_balancer=lb, server_factory=factory, stages=stages,
+        from happysimulator.components.deployment.canary_deployer import ErrorRateEvaluator, LatencyEvaluator
+        ev_ = {None: lambda: None, "error": ErrorRateEvaluator, "latency": lambda: LatencyEvaluator(max_latency=0.05)}[c.get("evaluator")]()
+        d = z.add(CanaryDeployer("canary", load_balancer=lb, server_factory=factory, stages=stages, metric_evaluator=ev_,
                                  evaluation_interval=check_num(c["ei"], 1e-6)))
         act = z.actor()
         z.run_at(int(c["at"]), act, lambda: (z.touch(d), [d.deploy()])[1])
